@@ -9,7 +9,7 @@ use std::rc::Rc;
 
 use debug::DebugFormattingNode;
 use debug::RawDebugLine;
-use fxhash::FxHashMap;
+use fxhash::{FxHashMap, FxHashSet};
 use log::log_enabled;
 use log::{error, trace};
 
@@ -143,6 +143,34 @@ impl LogicalLineFileFormatter for OptimisingLineFormatter {
             // Avoid reformatting the same parent line many times.
             lines_to_reflow.sort_by_key(|line| line.0);
             lines_to_reflow.dedup_by_key(|line| line.0);
+
+            /*
+                Lines from different conditional-compilation passes can share
+                tokens, and the line that is formatted last decides how those
+                are laid out. To keep that order, any later top-level line that
+                shares a token with a line being reflowed is reflowed as well.
+            */
+            if let Some(&(first, _)) = lines_to_reflow.first() {
+                let mut shared: FxHashSet<usize> = FxHashSet::default();
+                let mut next_reflow = lines_to_reflow.iter().map(|line| line.0).peekable();
+                let mut extra: Vec<(usize, &LogicalLine)> = vec![];
+                for (index, line) in input.iter().enumerate().skip(first) {
+                    if line.get_parent().is_some() || line.get_line_type() == LLT::Eof {
+                        continue;
+                    }
+                    let reflowing = next_reflow.next_if_eq(&index).is_some();
+                    if reflowing || line.get_tokens().iter().any(|token| shared.contains(token)) {
+                        shared.extend(line.get_tokens().iter().copied());
+                        if !reflowing {
+                            extra.push((index, line));
+                        }
+                    }
+                }
+                if !extra.is_empty() {
+                    lines_to_reflow.extend(extra);
+                    lines_to_reflow.sort_by_key(|line| line.0);
+                }
+            }
 
             for line in lines_to_reflow {
                 #[cfg(feature = "verif")]
